@@ -541,9 +541,17 @@ pub fn run(sc: &Scenario) -> RunOutput {
                     // (the application's select! looks at its deadline first: at a tie the call
                     // is dropped without being polled again, whatever it holds by then)
                     Some(ms) if ctx.sc.param("cancel_wins_ties") == Some(1) => {
+                        // (the deadline is watched by another task of the application, which
+                        // tells this one to give up: at a tie the accept call may already hold
+                        // a connection when it is dropped)
+                        let (ctx_tx, ctx_rx) = tokio::sync::oneshot::channel::<()>();
+                        tokio::spawn(async move {
+                            tokio::time::sleep(Duration::from_millis(ms)).await;
+                            let _ = ctx_tx.send(());
+                        });
                         tokio::select! {
                             biased;
-                            _ = tokio::time::sleep(Duration::from_millis(ms)) => None,
+                            _ = ctx_rx => None,
                             r = fut => Some(r),
                         }
                     }
